@@ -718,7 +718,7 @@ func c12GenConc(rng *rand.Rand, tier string, emit func(string)) {
 	// kind "first": many rounds (= many libraries used for the first time by calls that overlap) of a few short reads on a
 	// library of two or three markers: what ExtractMultiBarcode would initialise at first use
 	specs := []spec{{"hi", "w", 40, 4, 8, 10, 8}, {"hh", "d", 40, 4, 8, 10, 1}, {"any", "w", 36, 3, 8, 10, 5}, {"hd", "w", 36, 4, 8, 10, 12}, {"any", "d", 36, 3, 8, 10, 1},
-		{"first", "w", 6, 2, 16, 500, 2}, {"first", "d", 6, 2, 16, 500, 1}}
+		{"first", "w", 6, 2, 16, 320, 2}, {"first", "d", 6, 2, 16, 320, 1}}
 	if tier == "thorough" {
 		specs = []spec{{"hi", "w", 80, 6, 16, 25, 8}, {"hh", "d", 80, 6, 16, 25, 1}, {"any", "w", 60, 4, 16, 25, 5}, {"hd", "w", 60, 6, 12, 25, 16},
 			{"any", "d", 60, 4, 16, 25, 1}, {"hi", "d", 60, 8, 16, 25, 1}, {"hh", "w", 100, 3, 16, 25, 32}, {"any", "w", 50, 3, 12, 40, 1},
